@@ -5,7 +5,7 @@ cd "$(dirname "$0")/../coq"
 {
   echo "-R . Verif"
   echo "-arg -w -arg -notation-overridden,-deprecated-hint-without-locality,-deprecated-instance-without-locality"
-  ls lib/*.v gen/*.v c[0-9][0-9]/*.v 2>/dev/null | grep -v '/cases' | sort
+  ls lib/*.v gen/*.v c[0-9][0-9]/*.v 2>/dev/null | grep -v '/cases\|/zz_' | sort
 } > _CoqProject.new
 if ! cmp -s _CoqProject.new _CoqProject 2>/dev/null; then mv _CoqProject.new _CoqProject; else rm _CoqProject.new; fi
 if [ ! -f Makefile ] || [ _CoqProject -nt Makefile ]; then
